@@ -4,7 +4,7 @@ import common, zoo as zoolib, filelevel, workloads, iocommon
 from common import Pair, proof_stage, rebuild_tools, build_pqh, build_zoo, Lock, TRUSTED_BASE
 
 MODULE = "PQ.Props.C08"
-THEOREMS = ["PQ.C08." + t for t in ("readFull_spec", "readFull_indep", "readFull_sched_indep", "model_read_is_readExactly", "no_single_read_sites", "source_sites_propagate")]
+THEOREMS = ["PQ.C08." + t for t in ("readFull_spec", "readFull_indep", "readFull_sched_indep", "model_read_is_readExactly", "no_single_read_sites", "source_sites_propagate", "source_inventory_covers")]
 
 
 def run(chk):
@@ -18,6 +18,19 @@ def run(chk):
     pair = Pair(chk.log)
     zs = filelevel.load_zoos(pair, workloads.ZOOS)
     cases = iocommon.corpus(chk, pair, zs, thorough)
+    # files with a large footer (many row groups): footer reads span many source reads
+    g = zoolib.Gen(chk.rng, mode="pool")
+    extra = []
+    for name, nrg in (("flat", 30), ("three", 120)):
+        z = zs.get(name)
+        if z is not None:
+            ops = []
+            for _ in range(nrg):
+                ops += [("a", g.record(z.nodes)), ("w",)]
+            for codec in (0, 1, 2):
+                extra.append(filelevel.Case(z, 2, codec, ops + [("c",)], "many-row-groups"))
+    filelevel.run_cases(pair, extra, want_parse=False)
+    cases += extra
     scheds = ["frag=%d" % n for n in list(range(1, 18))] + ["frag=1 eof", "frag=3 eof", "frag=64 eof", "eof"]
     scheds += ["rand=%d" % (chk.seed * 100 + i) for i in range(12 if thorough else 5)] + ["rand=%d eof" % (chk.seed * 100 + 50 + i) for i in range(4 if thorough else 2)]
     ops, meta = [], []
